@@ -28,6 +28,7 @@ namespace bsops
 namespace sim
 {
     const char* const harness_name = "bitset";
+    const bool caller_threads_enabled = true;
 #define X(n) #n,
     const char* const op_names[] = {BITSET_OPS(X)};
 #undef X
@@ -1007,7 +1008,7 @@ namespace
         void run_all()
         {
             check_all();
-            for (const Step& st : plan.steps) step(st);
+            for (const Step& st : plan.steps) as_caller(run, st, [&] { step(st); });
         }
     };
 
